@@ -164,13 +164,45 @@ func (c *TreeCacheClientImpl) ReadCurrentUpdatesHighestPriorities(ctx context.Co
 }
 
 func (c *TreeCacheClientImpl) ReadUpdatesOwner(ctx context.Context, owner string) UpdateSlice {
+	if c.intendedStoreIndex == nil {
+		c.RefreshCaches(ctx)
+	}
 
-	ownerPaths := c.getPathsOfOwner(ctx, owner)
+	// The cache selects by owner only together with a priority: without one it hands out the highest priority
+	// entries of each path, whoever owns them, and the entries of an owner that is shadowed are not among those.
+	// So the paths of the owner are read under the priorities the owner holds them with.
+	pathsByPriority := map[int32]*PathSet{}
+	for _, keyMeta := range c.intendedStoreIndex {
+		for _, k := range keyMeta {
+			if k.Owner() != owner {
+				continue
+			}
+			ps, exists := pathsByPriority[k.Priority()]
+			if !exists {
+				ps = NewPathSet()
+				pathsByPriority[k.Priority()] = ps
+			}
+			ps.AddPath(k.GetPath())
+		}
+	}
 
-	return c.Read(ctx, &cache.Opts{
-		Store: cachepb.Store_INTENDED,
-		Owner: owner,
-	}, ownerPaths.paths.ToStringSlice())
+	result := UpdateSlice{}
+	for priority, ps := range pathsByPriority {
+		if priority <= 0 {
+			// not a priority the cache can select by
+			priority = 0
+		}
+		for _, u := range c.Read(ctx, &cache.Opts{
+			Store:    cachepb.Store_INTENDED,
+			Owner:    owner,
+			Priority: priority,
+		}, ps.paths.ToStringSlice()) {
+			if u.Owner() == owner {
+				result = append(result, u)
+			}
+		}
+	}
+	return result
 }
 
 func (c *TreeCacheClientImpl) getPathsOfOwner(ctx context.Context, owner string) *PathSet {
